@@ -19,6 +19,28 @@ for _f in sorted(glob.glob(os.path.join(_here, "p", "C*.py"))):
     PROPS[_id] = _m.PROP
     MANIFEST_TEXT[_id] = _m.MANIFEST
 
+# extension files checks/p/x_<ID>_<tag>.py (session 5: written by an owner of ANOTHER concern, e.g. the gofn
+# translator specialist, so that two people never edit one configuration file): `EXTRA` is merged into
+# PROPS[<ID>] - lists are appended (duplicates dropped), dicts updated, strings appended with a blank.
+for _f in sorted(glob.glob(os.path.join(_here, "p", "x_C*_*.py"))):
+    _name = os.path.basename(_f)[:-3]
+    _id = _name.split("_")[1]
+    if _id not in PROPS:
+        continue
+    _x = importlib.import_module(_name).EXTRA
+    for _k, _v in _x.items():
+        _cur = PROPS[_id].get(_k)
+        if isinstance(_v, list):
+            _cur = list(_cur or [])
+            _cur += [e for e in _v if e not in _cur]
+            PROPS[_id][_k] = _cur
+        elif isinstance(_v, dict):
+            _d = dict(_cur or {}); _d.update(_v); PROPS[_id][_k] = _d
+        elif isinstance(_v, str):
+            PROPS[_id][_k] = ((_cur + " ") if _cur else "") + _v
+        else:
+            PROPS[_id][_k] = _v
+
 # properties not claimed, with the reason (none is "genuinely not applicable";
 # a property whose check is not built yet gets a default reason in mkmanifest)
 NOT_APPLICABLE = {}
